@@ -50,25 +50,67 @@ def d1(ctx, prog):
 
 
 def d2(ctx, prog):
+    from .. import inline
+    tabs = {'SBOX', 'INV_SBOX', 'SHIFT_ROWS', 'INV_SHIFT_ROWS'}
     for name, table in (('sub_bytes', 'SBOX'), ('inv_sub_bytes', 'INV_SBOX')):
-        f = prog.need_func(A, name)
-        rets = [r.value for r in ast.walk(f.node) if isinstance(r, ast.Return)]
+        f = inline.inlined(prog, prog.need_func(A, name), skip={'_is_bytes_of_len'})
+        paths = astutil.return_paths(f.node)
         p = f.params[0]
-        ctx.check(len(rets) == 1 and norm(rets[0]) == f'{table}[{p}]', 'C05-D2', f'{f.key}::return', f'{name} returns `{norm(rets[0]) if rets else "?"}`, not {table}[{p}]',
-                  f'{name} = {table}[state]', f.where())
+        key = f'{f.key}::return'
+        if not paths or len(paths) != 1 or paths[0][1] is None:
+            ctx.undecided('C05-D2', key, 'returned expression not derivable', f.where())
+            continue
+        e = paths[0][1]
+        # TABLE[state] / numpy.take(TABLE, state) / TABLE.take(state)
+        tab = idx = None
+        if isinstance(e, ast.Subscript) and isinstance(e.value, ast.Name):
+            tab, idx = e.value.id, e.slice
+        elif isinstance(e, ast.Call) and norm(e.func).split('.')[-1] == 'take' and len(e.args) >= 1:
+            if isinstance(e.func, ast.Attribute) and isinstance(e.func.value, ast.Name) and e.func.value.id in tabs:
+                tab, idx = e.func.value.id, e.args[0]
+            elif len(e.args) >= 2 and isinstance(e.args[0], ast.Name):
+                tab, idx = e.args[0].id, e.args[1]
+        if tab in tabs and idx is not None and norm(idx) == p:
+            ctx.check(tab == table, 'C05-D2', key, f'{name} looks the state up in {tab}, not in {table}', f'{name} = {table}[state]', f.where())
+        else:
+            ctx.undecided('C05-D2', key, f'{name} returns `{norm(e)[:60]}`: not a lookup of the state in one of the S-box tables', f.where())
     for name, table in (('shift_rows', 'SHIFT_ROWS'), ('inv_shift_rows', 'INV_SHIFT_ROWS')):
-        f = prog.need_func(A, name)
-        rets = [r.value for r in ast.walk(f.node) if isinstance(r, ast.Return)]
+        f = inline.inlined(prog, prog.need_func(A, name), skip={'_is_bytes_of_len'})
+        paths = astutil.return_paths(f.node)
         p = f.params[0]
-        txt = norm(rets[0]).replace(' ', '') if rets else ''
-        ok = txt == f'{p}.reshape((-1,16))[:,{table}].reshape(dims)' and any(
-            isinstance(s, ast.Assign) and norm(s.targets[0]) == 'dims' and norm(s.value) == f'{p}.shape' for s in ast.walk(f.node))
-        ctx.check(ok, 'C05-D2', f'{f.key}::gather', f'{name} does not gather the last (16) axis with {table} and restore the shape (`{txt[:60]}`)',
-                  f'{name}: out[..., i] = in[..., {table}[i]]', f.where())
+        key = f'{f.key}::gather'
+        if not paths or len(paths) != 1 or paths[0][1] is None:
+            ctx.undecided('C05-D2', key, 'returned expression not derivable', f.where())
+            continue
+        e = paths[0][1]
+        tab = None
+        txt = norm(e).replace(' ', '')
+        m = None
+        for t in tabs:
+            forms = (f'{p}.reshape((-1,16))[:,{t}].reshape({p}.shape)', f'{p}[...,{t}]', f'_np.take({p},{t},axis=-1)', f'{p}.take({t},axis=-1)',
+                     f'{p}.reshape(-1,16)[:,{t}].reshape({p}.shape)', f'_np.take({p},{t},-1)')
+            if txt in forms:
+                m = t
+        if m is not None:
+            ctx.check(m == table, 'C05-D2', key, f'{name} gathers the last (16) axis with {m}, not with {table}', f'{name}: out[..., i] = in[..., {table}[i]]', f.where())
+        else:
+            ctx.undecided('C05-D2', key, f'{name} returns `{txt[:70]}`: not a gather of the last axis by one of the ShiftRows tables in a recognised form', f.where())
     f = prog.need_func(A, 'add_round_key')
-    rets = [r.value for r in ast.walk(f.node) if isinstance(r, ast.Return)]
-    ok = len(rets) == 1 and isinstance(rets[0], ast.Call) and norm(rets[0].func).split('.')[-1] == 'bitwise_xor' and sorted(norm(a) for a in rets[0].args) == sorted(f.params)
-    ctx.check(ok, 'C05-D2', f'{f.key}::xor', 'add_round_key is not the xor of its two arguments', 'add_round_key = state xor keys', f.where())
+    paths = astutil.return_paths(inline.inlined(prog, f, skip={'_is_bytes_of_len'}).node)
+    e = paths[0][1] if paths and len(paths) == 1 else None
+    key = f'{f.key}::xor'
+    ops = None
+    if isinstance(e, ast.Call) and norm(e.func).split('.')[-1] == 'bitwise_xor' and len(e.args) == 2:
+        ops = [norm(a) for a in e.args]
+    elif isinstance(e, ast.BinOp) and isinstance(e.op, ast.BitXor):
+        ops = [norm(e.left), norm(e.right)]
+    elif isinstance(e, ast.Call) and norm(e.func).split('.')[-1] in ('bitwise_or', 'bitwise_and', 'add', 'subtract') or isinstance(e, ast.BinOp):
+        ctx.fail('C05-D2', key, f'add_round_key computes `{norm(e)[:60]}`, not the xor of state and key', f.where())
+        ops = False
+    if ops is None:
+        ctx.undecided('C05-D2', key, f'add_round_key returns `{norm(e)[:60] if e is not None else "?"}`', f.where())
+    elif ops:
+        ctx.check(sorted(ops) == sorted(f.params), 'C05-D2', key, f'add_round_key xors {ops}, not its two arguments', 'add_round_key = state xor keys', f.where())
     r = prog.lookup(prog.need_mod(A), 'inv_add_round_key')
     ctx.check(bool(r) and r[0] == 'func' and r[1] is f, 'C05-D2', f'{A}::inv_add_round_key', 'inv_add_round_key is not add_round_key', 'inv_add_round_key is add_round_key', f.where())
 
